@@ -215,3 +215,15 @@ def _(self, other):
             isinstance(self._number_add_expr._raw_operands[0]._raw_operands[len(self._number_add_expr._raw_operands[0]._raw_ops)], NumberParenExpr)
             and as_ref(self._number_add_expr._raw_operands[0]._raw_operands[len(self._number_add_expr._raw_operands[0]._raw_ops)], 'NumberParenExpr')._inner_expr is old(other._number_add_expr)))
 
+
+# ---- wrap_with_parenthesis: the expression becomes one product of one factor, the old sum in parentheses
+@contract('NumberExpr.wrap_with_parenthesis')
+def _(self):
+    requires(ExprShape(self))
+    modifies('NumberExprGenerated._number_add_expr@self', 'RawTokenModel._raw_text@fresh', 'NumberParenExpr._token_store@fresh', 'NumberParenExpr._left_paren@fresh', 'NumberParenExpr._inner_expr@fresh',
+             'NumberParenExpr._right_paren@fresh', 'NumberMulExpr._raw_operands@fresh', 'NumberMulExpr._raw_ops@fresh', 'NumberAddExpr._raw_operands@fresh', 'NumberAddExpr._raw_ops@fresh',
+             'RawTreeModel._token_store@fresh', 'list[NumberAtomExpr]@fresh', 'list[MulOp]@fresh', 'list[NumberMulExpr]@fresh', 'list[AddOp]@fresh')
+    ensures(fresh(self._number_add_expr) and AddShape(self._number_add_expr) and len(self._number_add_expr._raw_ops) == 0 and fresh(self._number_add_expr._raw_operands[0]))
+    ensures(len(self._number_add_expr._raw_operands[0]._raw_ops) == 0
+            and fresh(self._number_add_expr._raw_operands[0]._raw_operands[0]) and isinstance(self._number_add_expr._raw_operands[0]._raw_operands[0], NumberParenExpr)
+            and as_ref(self._number_add_expr._raw_operands[0]._raw_operands[0], 'NumberParenExpr')._inner_expr is old(self._number_add_expr))
